@@ -2,7 +2,7 @@
 Shared by C01, C03, C04, C07, C14, C16."""
 import collections
 import json
-from harness import gen_graph, gen_proc, gen_cc, tlc
+from harness import gen_graph, gen_proc, gen_cc, gen_cons, tlc
 from harness.runner import pmap
 
 CAP_QUICK = 300
@@ -11,7 +11,7 @@ CAP_THOROUGH = 1500
 
 def corpus(ctx):
     rng = ctx.rng('proc')
-    gs = [gen_graph.theory_example()]
+    gs = [gen_graph.theory_example()] + gen_cons.linked_dv_graphs()
     if ctx.quick:
         fam = list(gen_graph.exhaustive_family(4, max_inc=1))
         gs += [g for i, g in enumerate(fam) if i % 3 == ctx.seed % 3]
